@@ -1,5 +1,6 @@
 import QuillModel.Backend.DrainProofs
 import QuillModel.Backend.DrainProgress
+import QuillModel.Backend.DrainTerminate
 /-!
 # C07 (drain part) — stopping the backend loses no completed statement
 
@@ -123,14 +124,9 @@ theorem C07_pop_progress (s : BSt) (h : (processLowest (runInj []) s).2 = true) 
     pendingTotal (processLowest (runInj []) s).1 + 1 = pendingTotal s :=
   processLowest_pending s h
 
-/- Full statement aimed at (not proved): from every reachable state the exit loop reaches its "everything is empty"
-   branch within `pendingTotal s + (maxTs + grace − now) / tick + 1` iterations, i.e. `exitEnds` holds for the fuel of
-   `Op.exit`. Missing: (1) that an iteration in which every pending timestamp is eligible (`ts ≤ now − grace`) pops
-   at least one event — this needs the bounded-queue invariant `Spsc.QInv` for every thread's queue (a non-empty
-   queue is offered by `prepare_read`, so the do-while of `readQueue` moves at least one eligible record and
-   `hasPending` then answers no); (2) the clock argument for the iterations before that. Proved: the conditional
-   form below (progress in every non-final iteration ⇒ termination within `pendingTotal + 1` iterations), together
-   with `C07_exit_never_adds` and `C07_pop_progress`. -/
+/- The full termination statement is `C07_exit_terminates` below (proved with the per-iteration progress fact of
+   prover bundle B, which rests on the queue coupling `PB.QC`); the conditional form that follows was the first
+   step and is kept because it holds for every injection runner. -/
 
 /-- **Termination, conditionally** (`…_partial`, see the comment above): if every iteration that does not find
     everything empty takes at least one statement out of the waiting ones, the exit loop reaches its "everything is
@@ -140,6 +136,41 @@ theorem C07_exit_terminates_partial (inj : BSt → Nat → BSt) (tick fuel : Nat
       pendingTotal (exitBody inj tick (exitIter inj tick n s)) < pendingTotal (exitIter inj tick n s))
     (hf : pendingTotal s < fuel) : exitEnds inj tick fuel s :=
   exit_terminates_of_progress inj tick fuel s hprog hf
+
+/-- **The exit loop terminates** (closing `C07_exit_terminates_partial` with the per-iteration progress fact of
+    prover bundle B). From every reachable state — whatever is queued, buffered or parked, whatever the
+    configuration — the drain `Op.exit` runs (`exitLoop (runInj []) 1000 100000`: clock tick 1000 per iteration,
+    fuel 100000 iterations) reaches its "all queues and transit buffers are empty" branch, provided the fuel of the
+    model suffices: `pendingTotal s + grace / 1000 + 1 ≤ 100000`. Every iteration advances the clock by the tick, so
+    after `grace / 1000 + 1` iterations every pending timestamp is past the grace period, and from then on every
+    iteration pops at least one event (`PB.populate_quiet`, `PB.batchLoop_quiet_lt`) while nothing is ever added
+    (`C07_exit_never_adds`); with nothing pending the emptiness check answers yes (`PB.QC.empty_true`).
+    Beyond the fuel the model's loop simply stops (a model artefact: the real `_exit` loop is unbounded and, by the
+    same argument, terminates after `pending + grace/tick + 1` iterations for any number of pending statements). -/
+theorem C07_exit_terminates (s0 : BSt) (h0 : DrainFresh s0) (hpl : s0.popLog = []) (ops : List Op) :
+    let s := runOps s0 ops
+    pendingTotal s + s.cfg.grace / 1000 + 1 ≤ 100000 →
+    exitEnds (runInj []) 1000 100000 { s with siteCnt := [] } := by
+  intro s hfuel
+  have hstart : Start s0 := ⟨h0.2.2.2.2.2.2, h0.1, h0.2.2.2.2.2.1, h0.2.1, h0.2.2.1, hpl⟩
+  obtain ⟨fl, hI⟩ := (PB.start_GI hstart).runOps ops
+  have hI' : PB.PIo s.cfg fl { s with siteCnt := [] } := hI.frame rfl
+  apply exit_terminates PB.quiet_runInj_nil 1000 s.now s.cfg 100000 (s.cfg.grace / 1000) fl _ hI'
+  · intro j r hr; exact hI.leNow j r hr
+  · show s.now + s.cfg.grace ≤ s.now + (s.cfg.grace / 1000 + 1) * 1000
+    omega
+  · have e : PB.pendingCount ({ s with siteCnt := [] } : BSt) = pendingTotal s := pendingCount_eq_total _
+    rw [e]; omega
+
+/-- **Stop loses nothing, unconditionally on the schedule**: under the numeric premise on the model's fuel the
+    conclusions of `C07_exit_drains` hold for every reachable state. -/
+theorem C07_exit_drains_everything (s0 : BSt) (h0 : DrainFresh s0) (hpl : s0.popLog = []) (ops : List Op) :
+    let s := runOps s0 ops
+    let s' := (applyOp s .exit).1
+    s.backendGone = false → pendingTotal s + s.cfg.grace / 1000 + 1 ≤ 100000 →
+    (∀ i, i < s'.ths.length → (s'.th i).buf = [] ∧ (s'.th i).qStmts = [] ∧ (s'.th i).accepted = (s'.th i).popped) ∧
+    s'.backendGone = true :=
+  fun hg hf => C07_exit_drains s0 h0 ops hg (C07_exit_terminates s0 h0 hpl ops hf)
 
 /-! ### non-vacuity -/
 
